@@ -476,6 +476,11 @@ class BasicBlock(Value):
             self.__replacements[old] = new
 
     def ReplaceUses(self, old: Union[int, Value], new: Optional[Value]):
+        # The new value may itself be scheduled for replacement already (a
+        # forwarded load which feeds the next store); use what it resolves to
+        if isinstance(new, Value) and new.Reference in self.__replaceUses:
+            new = self.__replaceUses[new.Reference]
+
         if isinstance(old, Value):
             self.__replaceUses[old.Reference] = new
         else:
